@@ -72,6 +72,10 @@ def run(chk):
     # DTLS 1.3 handshake machinery: model Hs/Hs13.v, theorems Properties/C17hs13.v, trace replay
     import hs13lib
     hs13lib.run_c17(chk, regenerate=False)
+    # DTLS 1.3 post-handshake flights (NewSessionTicket, KeyUpdate): model Hs/Hs13Post.v, theorems
+    # Properties/C17post.v, sequences of flights on one connection under virtual time
+    import c17post
+    c17post.run_post(chk)
     chk.finish(
         level="proof",
         rule="timed runs: initial interval 10 ms / 1 s / 40 s, backoff on/off, every datagram towards one side or both "
